@@ -210,6 +210,39 @@ pub fn eval_case(case: &Case, st: &mut Stats) -> Vec<Fail> {
             other => fails.push(Fail::new(format!("write-fails|{}", name), format!("{}: {:?}", desc(), other.map(|r| r.map(|_| ())))),),
         }
     }
+    // 3b. the same entry points against a scripted sink: short writes (3 bytes per call) give the same bytes; when the
+    //     n-th write call reports an error (every n) and the call returns, what was accepted is a prefix of the string
+    {
+        let mut sw = ScriptedWriter::new(3, None);
+        st.evals += 1;
+        match catch(|| xot.serialize_xml_write(pretty.clone(), top, &mut sw)) {
+            Ok(Ok(())) if s_pretty.as_ref().ok().and_then(|r| r.as_ref().ok()).map(|s| s.as_bytes() == &sw.data[..]).unwrap_or(false) => {}
+            other => fails.push(Fail::new("write-differs|short-writes", format!("{}: {:?}", desc(), other.map(|r| r.map_err(|e| format!("{:?}", e)))))),
+        }
+        if case.suppress == 0 && (case.cdata == 0 || case.cdata == 3) {
+            let mut count = ScriptedWriter::new(usize::MAX, None);
+            let _ = catch(|| xot.serialize_xml_write(plain.clone(), top, &mut count));
+            for n in 0..count.calls {
+                let mut fw = ScriptedWriter::new(usize::MAX, Some(n));
+                st.evals += 1;
+                st.bump("io_errors_injected");
+                match catch(|| xot.serialize_xml_write(plain.clone(), top, &mut fw)) {
+                    Ok(Ok(())) => {
+                        fails.push(Fail::new("write-differs|io-error-swallowed", format!("{}: writer fails at call {} but the call answers Ok", desc(), n)));
+                        break;
+                    }
+                    Ok(Err(_)) => {
+                        if !s_plain.as_bytes().starts_with(&fw.data) {
+                            fails.push(Fail::new("write-differs|not-a-prefix-after-io-error", format!("{}: call {}", desc(), n)));
+                            break;
+                        }
+                    }
+                    // a panic on an I/O error is not a statement of this property (C19 owns "never panics" for HTML5)
+                    Err(_) => st.bump("io_error_panics"),
+                }
+            }
+        }
+    }
     if case.cdata == 0 && !case.unescaped_gt {
         st.evals += 1;
         let w = catch(|| {
